@@ -37,6 +37,7 @@ def run(ctx):
     c02.check_unpack_root_as(ctx, fx, U.entry, "C03.V3") if hasattr(c02, "check_unpack_root_as") else None
     v4(ctx, fx, U)
     v5(ctx, fx, U)
+    v6(ctx, fx, U, "C03.V6")
 
 
 def v1(ctx, fx):
@@ -234,3 +235,42 @@ def chk(ctx, rule, fn, line, what, cond, okmsg, badmsg):
         ctx.ok(rule, fn, what, okmsg, line=line)
     else:
         ctx.finding(rule, fn, what, badmsg, line=line)
+
+
+def v6(ctx, fx, U, rule):
+    """every value that is placed in the output — a disclosed member, a disclosed array element, a copied payload member, a pushed
+    array element — is the result of the full recursive walker, on every path (no shallow 'nothing hidden here' shortcut)"""
+    W = unpackmodel.walker_of(U)
+    if W is None:
+        ctx.missing(rule, "walker", "cannot identify the recursive `&Value -> Result<Value>` walker")
+        return
+    n = 0
+    for (fn, b, node, lk) in U.obj_sinks:
+        n += 1
+        ok = unpackmodel.must_walk(fx, W, node.kids[2])
+        chk(ctx, rule, fn, fn.term(b).get("line"), "member-rewalked", ok, "a disclosed member's value is the walker's result on every path",
+            "a disclosed member's value can be placed in the output without being unpacked by %s: nested `_sd` / `...` survive in the claims and the disclosures of its descendants are ignored" % W.name.split("::")[-1])
+    for (fn, e, inner, lk) in U.elem_sinks:
+        n += 1
+        ok = unpackmodel.must_walk(fx, W, inner)
+        chk(ctx, rule, fn, e["line"], "element-rewalked", ok, "a disclosed array element is the walker's result on every path",
+            "a disclosed array element can be returned without being unpacked by %s" % W.name.split("::")[-1])
+    for (fn, b, node) in U.copy_sinks:
+        if fn is W or not fn.name.startswith("verifier::"):
+            continue
+        n += 1
+        ok = unpackmodel.must_walk(fx, W, node.kids[2])
+        chk(ctx, rule, fn, fn.term(b).get("line"), "copied-member-rewalked", ok, "a visible member's value is the walker's result on every path",
+            "a visible member's value can be copied to the output without being unpacked")
+    for (fn, b, node) in U.arr_pushes:
+        if any(f is fn for (f, e, i, l) in U.elem_sinks):
+            continue
+        v = node.kids[1]
+        # pushes of an element sink's Some payload are judged at the sink
+        if any(may(v, lambda x, ef=ef: x.kind == "call" and x.d["term"].get("resolved") == ef.name) for (ef, e, i, l) in U.elem_sinks):
+            continue
+        n += 1
+        ok = unpackmodel.must_walk(fx, W, v)
+        chk(ctx, rule, fn, fn.term(b).get("line"), "pushed-element-rewalked", ok, "a visible array element is the walker's result on every path",
+            "a visible array element can be pushed to the output without being unpacked")
+    ctx.floor(rule, "output placements judged", n, 4)
